@@ -361,7 +361,13 @@ fn random_scenario(rng: &mut StdRng, s: &mut Session, idx: usize) {
     s.scen = format!("r{}", idx);
     s.seq = 0;
     s.out.push(json!({"kind": "reset", "id": s.scen, "principals": np}));
-    let names = [format!("alice{}", idx), format!("bob{}", idx), format!("carol{}", idx)];
+    // a third of the scenarios use look-alike account names (a trailing blank, another case): accounts are identified by the
+    // exact string, whatever a handler normalises must not merge them
+    let names = if idx % 3 == 1 {
+        [format!("dana{}", idx), format!("dana{} ", idx), format!("Dana{}", idx)]
+    } else {
+        [format!("alice{}", idx), format!("bob{}", idx), format!("carol{}", idx)]
+    };
     // every principal knows only its own passwords (two per principal); account names are free for whoever registers first
     // the two passwords of a person share a prefix longer than 64 bytes and differ only in the tail; the "wrong" password
     // tried against the own account is always the OTHER own one (anything that looks at a prefix only accepts it)
